@@ -43,6 +43,9 @@ fn cleanup() {
 fn main() {
     seq::install_panic_hook();
     let args: Vec<String> = std::env::args().skip(1).collect();
+    if matches!(args.first().map(|s| s.as_str()), Some("worker") | Some("traces") | Some("oneshot") | Some("minimise")) {
+        simos::limit_address_space();
+    }
     let code = match args.first().map(|s| s.as_str()) {
         Some("worker") if args.len() >= 8 => worker::run_worker(&args[1..], &|p, s, t| sh::draw_case(p, s, t), &|c| sh::execute(c), &cleanup),
         Some("traces") if args.len() >= 7 => worker::run_traces(&args[1..], &|p, s, t| sh::draw_case(p, s, t), &|c| sh::execute(c), &cleanup),
